@@ -14,7 +14,7 @@ SMALL_BLOCKS = 4      # runner: every 4th case keeps its stores in 2..10-token b
 GATES = {
     'quick': {'full_sweep_models': 20000, 'cases_in_small_blocks': 50, 'evaluations': 15000, 'claim_calls': 4000, 'claim_calls_moving_zero_width': 30, 'claim_calls_raising': 300,
               'attribute_reads': 90000, 'wrapper_reads': 15000, 'deepcopies': 1000, 'comparisons': 1000, 'auto_claim_calls': 800,
-              'pingpong_sequences': 1500, 'underfull_block_holds_a_comment': 200},
+              'pingpong_sequences': 1100, 'underfull_block_holds_a_comment': 200},
     'thorough': {'evaluations': 400000, 'claim_calls_moving_zero_width': 800},
 }
 RULE = ('case = one accepted generated comment-dense document (either attribution mode, half of them in 2..5-token blocks so that claim '
